@@ -58,6 +58,7 @@ Let sw_false' := ltac:(inst_term sw_false).
 Let curr_unchecked_same' := ltac:(inst_term curr_unchecked_same).
 Let curr_byte_same' := ltac:(inst_term curr_byte_same).
 Let curr_byte_opt_same' := ltac:(inst_term curr_byte_opt_same).
+Let starts_with_space_same' := ltac:(inst_term starts_with_space_same).
 Let advance1_ok' := advance1_ok pre X1.
 Let advance2_ok' := ltac:(inst_term advance2_ok).
 Let skip_bytes1' := ltac:(inst_term skip_bytes1).
@@ -155,6 +156,38 @@ Proof.
     apply next_char_none' in Hoc. rewrite tlen1' in Hoc. lia.
 Qed.
 
+Lemma parse_external_literal_loc p s' : parse_external_literal T1 (cs T1 p) = Ok s' ->
+  exists p', s' = cs T1 p' /\ p < p' /\ p' <= tlen T1 /\
+    (p' <= P -> parse_external_literal T2 (cs T2 p) = Ok (cs T2 p')).
+Proof.
+  intros H. unfold parse_external_literal in *.
+  ib H x Hx. destruct x as [quote s3]. destruct (consume_quote_loc' p quote s3 Hx) as (-> & B1 & B2).
+  cbv zeta in H. cbn [cs s_pos] in H.
+  ib H y Hy. destruct y as [v1 s4]. destruct (consume_bytes_loc _ (p + 1) v1 s4 B1 Hy) as (p4 & -> & C1 & C2 & Ev & C3).
+  ib H u Hu. destruct (consume_byte_loc' quote p4 s' H) as (-> & D1 & D2).
+  exists (p4 + 1). split; [reflexivity|]. split; [lia|]. split; [exact D1|]. intros Hle.
+  rewrite B2 by lia. cbn [bind]. cbv zeta. cbn [cs s_pos]. rewrite C3 by lia. cbn [bind].
+  rewrite (is_xml_str_12 v1 (p + 1) u) by (try exact Hu; subst v1; cbn [sl_start sl_end]; lia).
+  cbn [bind]. apply D2. exact Hle.
+Qed.
+
+Lemma parse_pubid_literal_loc p s' : parse_pubid_literal T1 (cs T1 p) = Ok s' ->
+  exists p', s' = cs T1 p' /\ p < p' /\ p' <= tlen T1 /\
+    (p' <= P -> parse_pubid_literal T2 (cs T2 p) = Ok (cs T2 p')).
+Proof.
+  intros H. unfold parse_pubid_literal in *.
+  ib H x Hx. destruct x as [quote s3]. destruct (consume_quote_loc' p quote s3 Hx) as (-> & B1 & B2).
+  cbv zeta in H.
+  destruct (skip_bytes1' (fun y => negb (y =? quote) && pubid_char y) (p + 1) B1) as (p2 & E1 & L1 & L2 & E2).
+  rewrite E1 in H. ib H c Hc. destruct (negb (c =? quote)) eqn:Ec; [nok|].
+  apply advance1_ok' in H. subst s'.
+  assert (A3 : p2 + 1 <= tlen T1).
+  { unfold curr_byte in Hc. rewrite cs_at_end in Hc. destruct (tlen T1 <=? p2) eqn:Ea; [discriminate|]. lia. }
+  exists (p2 + 1). split; [reflexivity|]. split; [lia|]. split; [exact A3|]. intros Hle.
+  rewrite B2 by lia. cbn [bind]. cbv zeta. rewrite E2 by lia. rewrite curr_byte_same' by lia. rewrite Hc. cbn [bind].
+  rewrite Ec. apply advance2_ok'. exact Hle.
+Qed.
+
 Lemma parse_external_id_loc p found s' : p <= tlen T1 -> parse_external_id T1 (cs T1 p) = Ok (found, s') ->
   exists p', s' = cs T1 p' /\ p <= p' /\ p' <= tlen T1 /\
     (p' <= P -> parse_external_id T2 (cs T2 p) = Ok (found, cs T2 p')).
@@ -168,30 +201,26 @@ Proof.
   rewrite cs_advance in Hadv. destruct (tlen T1 <? p + 6) eqn:E6; [discriminate|]. clear Hadv.
   ib H idn Hid. unfold slice_back in Hid. cbn [cs s_pos] in Hid. destruct (mk_slice_val' _ _ _ _ Hid) as [Eid _].
   ib H s2 Hs2. destruct (consume_spaces_loc' (p + 6) s2 ltac:(lia) Hs2) as (p2 & -> & A1 & A2 & A3).
-  ib H x Hx. destruct x as [quote s3]. destruct (consume_quote_loc' p2 quote s3 Hx) as (-> & B1 & B2).
-  ib H y Hy. destruct y as [v1 s4]. destruct (consume_bytes_loc _ (p2 + 1) v1 s4 B1 Hy) as (p4 & -> & C1 & C2 & _ & C3).
-  ib H s5 Hs5. destruct (consume_byte_loc' quote p4 s5 Hs5) as (-> & D1 & D2).
   assert (Htest : p + 6 <= P -> starts_with (cs T2 p) (b "SYSTEM") || starts_with (cs T2 p) (b "PUBLIC") = true).
   { intros Hle. destruct (starts_with (cs T1 p) (b "SYSTEM")) eqn:E1.
     - rewrite (sw_true' p _ E1) by (change (blen (b "SYSTEM")) with 6; lia). reflexivity.
     - cbn [orb] in Et. rewrite (sw_false' p _ E1) by (reflexivity || lia).
       rewrite (sw_true' p _ Et) by (change (blen (b "PUBLIC")) with 6; lia). reflexivity. }
   destruct (bytes_eqb (slice_bytes T1 idn) (b "SYSTEM")) eqn:Esys.
-  - injection H as <- <-. exists (p4 + 1). split; [reflexivity|]. split; [lia|]. split; [exact D1|]. intros Hle.
+  - ib H s5 Hs5. destruct (parse_external_literal_loc p2 s5 Hs5) as (p5 & -> & D0 & D1 & D2).
+    injection H as <- <-. exists p5. split; [reflexivity|]. split; [lia|]. split; [exact D1|]. intros Hle.
     cbn [cs s_pos]. rewrite Htest by lia. rewrite advance2_ok' by lia. cbn [bind]. unfold slice_back. cbn [cs s_pos].
-    rewrite (mk_slice_12' _ _ _ Hid) by lia. cbn [bind]. rewrite A3 by lia. cbn [bind]. rewrite B2 by lia. cbn [bind].
-    rewrite C3 by lia. cbn [bind]. rewrite D2 by lia. cbn [bind].
-    rewrite slice_bytes_12' by (subst idn; cbn [sl_start sl_end]; lia). rewrite Esys. reflexivity.
-  - ib H s6 Hs6. destruct (consume_spaces_loc' (p4 + 1) s6 D1 Hs6) as (p6 & -> & F1 & F2 & F3).
-    ib H x2 Hx2. destruct x2 as [quote2 s7]. destruct (consume_quote_loc' p6 quote2 s7 Hx2) as (-> & G1 & G2).
-    ib H y2 Hy2. destruct y2 as [v2 s8]. destruct (consume_bytes_loc _ (p6 + 1) v2 s8 G1 Hy2) as (p8 & -> & I1 & I2 & _ & I3).
-    ib H s9 Hs9. destruct (consume_byte_loc' quote2 p8 s9 Hs9) as (-> & J1 & J2).
-    injection H as <- <-. exists (p8 + 1). split; [reflexivity|]. split; [lia|]. split; [exact J1|]. intros Hle.
-    cbn [cs s_pos]. rewrite Htest by lia. rewrite advance2_ok' by lia. cbn [bind]. unfold slice_back. cbn [cs s_pos].
-    rewrite (mk_slice_12' _ _ _ Hid) by lia. cbn [bind]. rewrite A3 by lia. cbn [bind]. rewrite B2 by lia. cbn [bind].
-    rewrite C3 by lia. cbn [bind]. rewrite D2 by lia. cbn [bind].
+    rewrite (mk_slice_12' _ _ _ Hid) by lia. cbn [bind]. rewrite A3 by lia. cbn [bind].
     rewrite slice_bytes_12' by (subst idn; cbn [sl_start sl_end]; lia). rewrite Esys.
-    rewrite F3 by lia. cbn [bind]. rewrite G2 by lia. cbn [bind]. rewrite I3 by lia. cbn [bind]. rewrite J2 by lia. reflexivity.
+    rewrite D2 by lia. reflexivity.
+  - ib H s5 Hs5. destruct (parse_pubid_literal_loc p2 s5 Hs5) as (p5 & -> & D0 & D1 & D2).
+    ib H s6 Hs6. destruct (consume_spaces_loc' p5 s6 D1 Hs6) as (p6 & -> & F1 & F2 & F3).
+    ib H s9 Hs9. destruct (parse_external_literal_loc p6 s9 Hs9) as (p9 & -> & J0 & J1 & J2).
+    injection H as <- <-. exists p9. split; [reflexivity|]. split; [lia|]. split; [exact J1|]. intros Hle.
+    cbn [cs s_pos]. rewrite Htest by lia. rewrite advance2_ok' by lia. cbn [bind]. unfold slice_back. cbn [cs s_pos].
+    rewrite (mk_slice_12' _ _ _ Hid) by lia. cbn [bind]. rewrite A3 by lia. cbn [bind].
+    rewrite slice_bytes_12' by (subst idn; cbn [sl_start sl_end]; lia). rewrite Esys.
+    rewrite D2 by lia. cbn [bind]. rewrite F3 by lia. cbn [bind]. rewrite J2 by lia. reflexivity.
 Qed.
 
 (* ---- the declarations of the internal subset ---- *)
@@ -221,13 +250,15 @@ Proof.
     + cbv zeta in H. destruct (skip_bytes1' byte_is_space p1 A2) as (p2 & E1 & B1 & B2 & E2).
       unfold skip_spaces in *. rewrite E1 in H.
       destruct (starts_with (cs T1 p2) (b "NDATA")) eqn:En.
-      * ib H s3 Hs3. pose proof Hs3 as Hadv. apply advance1_ok' in Hs3. subst s3.
+      * destruct (negb (starts_with_space (cs T1 p1))) eqn:Ehs; [nok|].
+        ib H s3 Hs3. pose proof Hs3 as Hadv. apply advance1_ok' in Hs3. subst s3.
         rewrite cs_advance in Hadv. destruct (tlen T1 <? p2 + 5) eqn:E5; [discriminate|]. clear Hadv.
         ib H s4 Hs4. destruct (consume_spaces_loc' (p2 + 5) s4 ltac:(lia) Hs4) as (p4 & -> & C1 & C2 & C3).
         ib H s5 Hs5. destruct (skip_name_loc p4 s5 C2 Hs5) as (p5 & -> & D1 & D2 & D3).
         injection H as <- <-. exists p5. split; [reflexivity|]. split; [lia|]. split; [exact D2|]. intros Hlt.
         rewrite (Hhead p5) by lia. cbn [bind]. rewrite Eq, Es. rewrite A3 by lia. cbn [bind]. cbv zeta.
         rewrite E2 by lia. rewrite (sw_true' p2 _ En) by (change (blen (b "NDATA")) with 5; lia).
+        rewrite starts_with_space_same' by lia. rewrite Ehs.
         rewrite advance2_ok' by lia. cbn [bind]. rewrite C3 by lia. cbn [bind]. rewrite D3 by lia. reflexivity.
       * injection H as <- <-. exists p2. split; [reflexivity|]. split; [lia|]. split; [exact B2|]. intros Hlt.
         rewrite (Hhead p2) by lia. cbn [bind]. rewrite Eq, Es. rewrite A3 by lia. cbn [bind]. cbv zeta.
